@@ -29,6 +29,14 @@ def subclasses_of(prog, short, base):
 def new_ev(prog, opaque=(), **kw):
     ev = Evaluator(prog, **kw)
     ev.opaque_fns |= set(opaque)
+    # `network` / `self.network` are objects of class Network: their is_zero_node test is unfolded (one term for `n == zero` and `is_zero_node(n)`)
+    try:
+        nm = prog.mod('Network.network'); c = nm.defs.get('Network')
+        mem = prog.find_member(nm, c, 'is_zero_node') if isinstance(c, ast.ClassDef) else None
+        if mem and isinstance(mem[1], ast.FunctionDef):
+            for at in ('network', ('.', 'self', 'network')): ev.atom_methods[(at, 'is_zero_node')] = (mem[0], mem[1])
+    except KeyError:
+        pass
     return ev
 
 
